@@ -6,6 +6,9 @@ import r_bound as B
 import r_append as A
 import r_index as I
 import r_cmp as CMP
+import r_owned as O
+import r_serde as SD
+import r_alloc as AL
 
 TRUSTED = [
     "rustc nightly 1.97 type checker, borrow checker and MIR construction (-Zmir-opt-level=0)",
@@ -23,6 +26,9 @@ def c19_freeze(F, R):
 
 
 PROPS = {
+    "C17": {"rules": [AL.r_cover_merge, AL.r_cover_reserve, AL.r_reserve_items_agree, AL.r_noalloc], "explanation": "x", "decided": [], "not_decided": []},
+    "C16": {"rules": [SD.r_serde], "explanation": "x", "decided": [], "not_decided": []},
+    "C14": {"rules": [O.r_onto, O.r_owned_conversions, O.r_reborrow], "explanation": "x", "decided": [], "not_decided": []},
     "C15": {"rules": [CMP.r_cmp], "explanation": "x", "decided": [], "not_decided": []},
     "C05": {"rules": [I.r_ovf, I.r_panic_edges, I.r_nowrite_on_reject, A.r_freeze, I.r_concat, I.r_stride_iter, B.r_bound_stride_sites, B.r_index_failstop], "explanation": "x", "decided": [], "not_decided": []},
     "C02": {"rules": [A.r_append, A.r_freeze], "explanation": "x", "decided": [], "not_decided": []},
